@@ -138,7 +138,7 @@ def _find_loops_appending(unit, name):
         if isinstance(n, ast.For):
             for m in ast.walk(n):
                 if isinstance(m, ast.Call) and isinstance(m.func, ast.Attribute) and m.func.attr == "append" \
-                        and isinstance(m.func.value, ast.Name) and m.func.value.id == name:
+                        and isinstance(m.func.value, ast.Name):      # whatever the list of earlier elements is called
                     o = loop_ordinal(unit, n)
                     # the outermost loop containing the append
                     out.append(o)
